@@ -21,6 +21,11 @@ const (
 	dummyAudioFilterStageDummy    = 3
 )
 
+// dummyAudioFilterMaxFillMs is the longest gap between two video messages that
+// is filled with silent audio packet by packet. A larger forward jump of the
+// input timestamp restarts the dummy audio clock at the new timestamp.
+const dummyAudioFilterMaxFillMs = 10000
+
 type DummyAudioFilter struct {
 	uk          string
 	waitAudioMs int
@@ -145,14 +150,25 @@ func (filter *DummyAudioFilter) handleDummyStage(msg base.RtmpMsg) {
 		filter.onPopProxy(msg)
 		filter.prevAudioTs = ats
 	} else {
-		for {
-			ats := filter.prevAudioTs + filter.calcAudioDurationMs()
-			if ats > msg.Header.TimestampAbs {
-				break
-			}
+		// The number of packets made for one input message must not depend on how far its
+		// timestamp jumped (a single message stamped 0xFFFFFFFF asked for 2*10^8 of them),
+		// and prevAudioTs+duration must not wrap around below the message timestamp.
+		if msg.Header.TimestampAbs > filter.prevAudioTs && msg.Header.TimestampAbs-filter.prevAudioTs > dummyAudioFilterMaxFillMs {
+			ats := msg.Header.TimestampAbs
 			amsg := filter.makeOneAudio(ats)
 			filter.onPopProxy(amsg)
+			filter.onPopProxy(msg)
 			filter.prevAudioTs = ats
+			return
+		}
+		for {
+			ats := uint64(filter.prevAudioTs) + uint64(filter.calcAudioDurationMs())
+			if ats > uint64(msg.Header.TimestampAbs) {
+				break
+			}
+			amsg := filter.makeOneAudio(uint32(ats))
+			filter.onPopProxy(amsg)
+			filter.prevAudioTs = uint32(ats)
 		}
 		filter.onPopProxy(msg)
 	}
